@@ -45,6 +45,7 @@ Separates(n, rs, cs, ax, b2, bo2) ==      \* b2: doubled border on this axis, bo
     IN  \A a \in 1..n, b \in 1..n : (a < b /\ CrossOverlap(rs[a], rs[b], ax, bo2)) =>
             (LP[<<a, b>>] >= HalfSum(rs[a], rs[b], ax, b2) \/ LP[<<b, a>>] >= HalfSum(rs[a], rs[b], ax, b2))
 GenTags(r) ==
+    IF ~r.gen THEN {} ELSE      \* very large sets are recorded without their constraint sets
     (IF Acyclic(r.n, r.cxn) THEN {} ELSE {"genX-neighbours-cyclic"})
     \cup (IF Acyclic(r.n, r.cx) THEN {} ELSE {"genX-cyclic"})
     \cup (IF Acyclic(r.n, r.cy) THEN {} ELSE {"genY-cyclic"})
